@@ -34,6 +34,20 @@ def multi_param_script(rng):
     return "\n".join(lines) + "\n"
 
 
+def array_kw_script(rng):
+    """several array-valued keyword (and positional) arguments in one operation: the hoisted declarations A0, A1, ... must
+    be numbered in the written order in every process"""
+    lines = ["name arr%d" % rng.randint(0, 9), "version 1.0", ""]
+    names = rng.sample(["cov", "means", "hbar", "extra", "U", "weights", "phases", "m"], rng.randint(2, 5))
+    for k, nm in enumerate(names):
+        lines.append("float array %s =\n    %s" % (nm, ", ".join(str(rng.randint(0, 9) + k) for _ in range(rng.randint(1, 3)))))
+    pos = rng.sample(names, rng.randint(0, 2))
+    lines.append("Gaussian(%s) | [0, 1]" % ", ".join(pos + ["%s=%s" % (rng.choice(NAMES) + str(i), nm) for i, nm in enumerate(names)]))
+    if rng.random() < 0.5:
+        lines.append("Interferometer(%s) | 2" % ", ".join("%s=%s" % (nm, nm) for nm in rng.sample(names, 2)))
+    return "\n".join(lines) + "\n"
+
+
 def same_obs(a, b):
     return json.dumps(a, sort_keys=True) == json.dumps(b, sort_keys=True)
 
@@ -46,7 +60,9 @@ def run(tier, seed):
     quick = tier == "quick"
     texts = []
     for i in range(40 if quick else 400):
-        if i % 3 != 2:
+        if i % 5 == 4:
+            texts.append(array_kw_script(rng))
+        elif i % 3 != 2:
             texts.append(multi_param_script(rng))
         else:
             g = Gen(rng, allow_params=True, allow_regs=True)
